@@ -54,7 +54,7 @@ func concCase(c *mon.Case) {
 	limits := []int{0, 1, 1, 2, 3, 8}
 	limit := limits[r.IntN(len(limits))]
 	if r.IntN(12) == 0 {
-		limit = -1 // documented as unlimited too
+		limit = []int{-1, -8, -1 << 31}[r.IntN(3)] // any non-positive limit is documented as unlimited
 	}
 	gate := make(chan struct{})
 	var active atomic.Int64
